@@ -13,7 +13,7 @@ from refmodel import element_rules as R
 
 ENVELOPE = ('ISA', 'GS', 'ST', 'SE', 'GE', 'IEA', 'TA1')
 ELEMENT_KINDS = ['too_long', 'too_short', 'bad_code', 'bad_class', 'bad_date', 'bad_time', 'missing_required_ele',
-                 'not_used_ele', 'too_many_ele', 'too_many_comp', 'syntax_note', 'comp_in_simple']
+                 'not_used_ele', 'too_many_ele', 'too_many_comp', 'syntax_note', 'comp_in_simple', 'missing_required_comp']
 SEGMENT_KINDS = ['missing_required_seg', 'unknown_seg', 'misplaced_seg', 'seg_over_max', 'loop_over_max']
 PRIMARY = {'too_long': '5', 'too_short': '4', 'bad_code': '7', 'bad_class': '6', 'bad_date': '8', 'bad_time': '9',
            'missing_required_ele': '1', 'not_used_ele': '*', 'too_many_ele': '3', 'too_many_comp': '3'}
@@ -235,6 +235,16 @@ def enumerate_faults(m, doc, rng, charset, icvn, kinds=None, alphabet=None):
             nv.append('X1')
             out.append({'kind': 'too_many_ele', 'line': line, 'ele': len(node.children) + 1, 'comp': None, 'op': 'replace',
                         'new_vals': nv, 'code': '3', 'value': None, 'neutral': True, 'ref': None, 'seg_id': seg['id']})
+        if 'missing_required_comp' in kinds:
+            # a required composite left empty altogether (all its components blank), the segment staying present
+            for i, cnode in enumerate(node.children):
+                if cnode.kind == 'composite' and cnode.usage == 'R' and i < len(vals) and R.present(vals[i]) \
+                        and not any((i + 1, k) in quals for k in (None, 1, 2, 3)):
+                    nv = copy.deepcopy(vals)
+                    nv[i] = ['']
+                    if any(R.present(x) for x in nv):
+                        out.append({'kind': 'missing_required_comp', 'line': line, 'ele': i + 1, 'comp': None, 'op': 'replace', 'new_vals': nv,
+                                    'code': '1', 'value': None, 'neutral': True, 'ref': None, 'seg_id': seg['id']})
         if 'too_many_comp' in kinds:
             for i, cnode in enumerate(node.children):
                 if cnode.kind == 'composite' and cnode.usage != 'N' and i < len(vals) and R.present(vals[i]):
